@@ -204,6 +204,23 @@ func c06(env *core.Env, mode string) {
 	if c.Bool("maxpage", 1, 4) {
 		opts.MaxListPageSize = c.Range("maxpage.n", 1, 3)
 	}
+	switch c.Int("locations", 5) {
+	case 1:
+		opts.LocationsForDescriptor = func(isManifest bool, desc ociregistry.Descriptor) ([]string, error) {
+			return []string{"http://cdn.example/" + string(desc.Digest)}, nil
+		}
+	case 2:
+		opts.LocationsForDescriptor = func(isManifest bool, desc ociregistry.Descriptor) ([]string, error) {
+			return nil, nil
+		}
+	case 3:
+		opts.LocationsForDescriptor = func(isManifest bool, desc ociregistry.Descriptor) ([]string, error) {
+			return nil, fmt.Errorf("no location known")
+		}
+	}
+	if c.Bool("uploadlocation", 1, 5) {
+		opts.LocationForUploadID = func(id string) (string, error) { return "http://uploads.example/u/" + id, nil }
+	}
 	handler := ociserver.New(backend, opts)
 	cctx, cancel := context.WithCancel(ctx)
 	defer cancel()
@@ -468,6 +485,9 @@ func c06(env *core.Env, mode string) {
 			continue
 		}
 		if status/100 == 3 {
+			if wire.Header.Get("Location") == "" {
+				env.Failf(class("redirect-without-location"), "%s %s answered %d without a Location header", method, path, status)
+			}
 			continue
 		}
 		// successes
